@@ -1,7 +1,29 @@
 (** C05 -- Calls bind by position, return the executed return value, and unwind cleanly. *)
 From Pakhi Require Import Base Float64 Syntax Tables Lexer Interp.
-From Pakhi.Proofs Require Import Assoc Scope Control WF WFOps FrameInv NoPanic.
+From Pakhi.Proofs Require Import CallValue Assoc Scope Control WF WFOps FrameInv NoPanic.
 Local Open Scope nat_scope.
+
+(* the value of a call: the callee's body ran from its opening brace with exactly the positional bindings in a fresh scope
+   on top of the caller's; the call loop stopped with the cursor resting on the return statement that was executed; the
+   call's value is the value of that statement's operand evaluated there *)
+Theorem C05_call_value_is_the_executed_return_operand : forall code fuel name np args p m v m',
+  is_builtin name = false ->
+  eval code (S fuel) (ECall (EVar name np) args p) m = Ok (v, m') ->
+  exists start params env m1 bp m3 re rp m4 ra rets,
+    lookup_var name (m_scopes m) = Some (VFun start params) /\
+    bind_args (eval code fuel) params args [] m = Ok (env, m1) /\
+    stmt_at code start = Some (FBlockStart bp) /\
+    call_loop code fuel (mkM start (env :: m_scopes m1) (m_loops m1) (length (m_loops m)) (m_pc m1 :: m_ret m1) (m_heap m1) (m_out m1) (m_world m1) (m_collections m1)) = Ok m3 /\
+    stmt_at code (m_pc m3) = Some (FReturn re rp) /\
+    eval code fuel re m3 = Ok (v, m4) /\
+    m_ret m3 = ra :: rets /\ m_pc m' = ra /\ m_ret m' = rets /\ m_heap m' = m_heap m4 /\ m_out m' = m_out m4 /\ m_world m' = m_world m4.
+Proof. exact call_value. Qed.
+Print Assumptions C05_call_value_is_the_executed_return_operand.
+
+(* a bare `ফেরত;` and the closing `ফেরত;` of a definition carry the nil literal (parser: ENil), whose value is nil *)
+Theorem C05_bare_return_is_nil : forall code fuel q m, eval code (S fuel) (ENil q) m = Ok (VNil, m).
+Proof. exact bare_return_is_nil. Qed.
+Print Assumptions C05_bare_return_is_nil.
 
 Theorem C05_arguments_bound_by_position : forall ev p ps a args env m v m1,
   ev a m = Ok (v, m1) -> bind_args ev (p :: ps) (a :: args) env m = bind_args ev ps args (alist_set p v env) m1.
